@@ -134,4 +134,30 @@ slot 3 at which the seeded change lets it start has none. -/
 example : exTight.hasVar 1 0 0 = true ∧ exTight.hasVar 1 0 1 = true ∧ exTight.hasVar 1 0 2 = false ∧
     exTight.hasVar 1 0 3 = false := by decide
 
+/-- A feasible point that places the batch `{Tight, Loose}` at slot 1 (`Urgent` stays unplaced). -/
+def sigmaTight : BVar → Int
+  | .cell 1 0 1 => 1
+  | .isPlaced 1 => 1
+  | .reward 1 => 204 * 39
+  | .notPlaced 0 => -1
+  | _ => 0
+
+/-- The hypotheses of `member_meets_own_deadline` are satisfiable: enforcement is on, the point is
+feasible, and both members are answered with the batch's cell `(W0, t = 1)`; `1 + 5 ≤ 6 ≤ 20`. -/
+example : exTight.enforceDeadlines = true ∧ sat sigmaTight (genB exTight) ∧
+    (⟨1, .placed 0 1 1⟩ : BDecision) ∈ decodeB exTight sigmaTight ∧
+    (⟨2, .placed 0 1 1⟩ : BDecision) ∈ decodeB exTight sigmaTight ∧
+    (⟨0, .unplaced⟩ : BDecision) ∈ decodeB exTight sigmaTight := by decide
+
+/-- The same scenario with `Urgent` due at 2: hopeless (`2 < 0 + 3`), offered, hence cancelled;
+`Urgent` due at 3 (in `exTight`) is the boundary and is not hopeless. -/
+def exHopeless : BInst :=
+  { exTight with tasks := [⟨"Urgent@G0", .released, 0, 2, 1, 1, 0, 0⟩,
+                           ⟨"Tight@G1", .released, 0, 6, 0, 1, 0, 0⟩,
+                           ⟨"Loose@G2", .released, 0, 20, 0, 1, 0, 0⟩] }
+
+example : (0 : Nat) < exHopeless.nOffered ∧ exHopeless.hopeless 0 = true ∧ exHopeless.wf = true ∧
+    exHopeless.noModel = false ∧ exHopeless.raises = false ∧ exTight.hopeless 0 = false ∧
+    decodeFailB exHopeless = [⟨0, .cancel⟩, ⟨1, .unplaced⟩, ⟨2, .unplaced⟩] := by decide
+
 end ErdosVerif.C12_TetriBatch
